@@ -65,7 +65,7 @@ func c15Content(f string, v int, invalid bool) string {
 // accumulates.
 type c15Proc struct{}
 
-func (c15Proc) New() vuego.NodeProcessor { return c15Proc{} }
+func (c15Proc) New() vuego.NodeProcessor             { return c15Proc{} }
 func (c15Proc) PostProcess(nodes []*html.Node) error { return nil }
 func (c15Proc) PreProcess(nodes []*html.Node) error {
 	var walk func(n *html.Node)
